@@ -76,6 +76,8 @@ struct Cfg {
     /// Rust enums translated to Lean inductives of the same name with the same constructor names
     enums: BTreeSet<String>,
     tail: Option<String>,
+    /// path into nested `if` / `if let` bodies: (statement index, "then" | "else") steps; the statements of the block reached are the body
+    inner_block: Vec<(usize, String)>,
 }
 
 fn default_methods() -> BTreeMap<String, String> {
@@ -209,6 +211,26 @@ fn plain_var(e: &Expr) -> Option<String> {
 }
 
 /// variables assigned (not declared) in a statement list
+/// `self.a` / `self.a.b` (named fields only) as the dotted path "a" / "a.b"
+fn self_field_path(e: &Expr) -> Option<String> {
+    if let Expr::Field(f) = e {
+        if let Member::Named(n) = &f.member {
+            if let Expr::Path(bp) = &*f.base {
+                if bp.path.is_ident("self") {
+                    return Some(n.to_string());
+                }
+                return None;
+            }
+            return self_field_path(&f.base).map(|p| format!("{}.{}", p, n));
+        }
+    }
+    None
+}
+
+fn self_field_var(path: &str) -> String {
+    format!("self_{}", path.replace('.', "_"))
+}
+
 fn assigned_vars(stmts: &[Stmt], out: &mut Vec<String>) {
     struct V<'b> {
         out: &'b mut Vec<String>,
@@ -228,14 +250,10 @@ fn assigned_vars(stmts: &[Stmt], out: &mut Vec<String>) {
             visit::Visit::visit_pat(&mut PV(&mut self.declared), &l.pat);
         }
         fn visit_expr_assign(&mut self, a: &'ast ExprAssign) {
-            if let Expr::Field(f) = &*a.left {
-                if let (Expr::Path(bp), Member::Named(n)) = (&*f.base, &f.member) {
-                    if bp.path.is_ident("self") {
-                        let n = format!("self_{}", n);
-                        if !self.out.contains(&n) {
-                            self.out.push(n);
-                        }
-                    }
+            if let Some(path) = self_field_path(&a.left) {
+                let n = self_field_var(&path);
+                if !self.out.contains(&n) {
+                    self.out.push(n);
                 }
             }
             if let Expr::Path(p) = &*a.left {
@@ -249,14 +267,10 @@ fn assigned_vars(stmts: &[Stmt], out: &mut Vec<String>) {
         fn visit_expr_binary(&mut self, b: &'ast ExprBinary) {
             use BinOp::*;
             if matches!(b.op, AddAssign(_) | SubAssign(_) | MulAssign(_) | DivAssign(_) | BitAndAssign(_) | BitOrAssign(_) | BitXorAssign(_)) {
-                if let Expr::Field(f) = &*b.left {
-                    if let (Expr::Path(bp), Member::Named(n)) = (&*f.base, &f.member) {
-                        if bp.path.is_ident("self") {
-                            let n = format!("self_{}", n);
-                            if !self.out.contains(&n) {
-                                self.out.push(n);
-                            }
-                        }
+                if let Some(path) = self_field_path(&b.left) {
+                    let n = self_field_var(&path);
+                    if !self.out.contains(&n) {
+                        self.out.push(n);
                     }
                 }
                 if let Expr::Path(p) = &*b.left {
@@ -479,9 +493,9 @@ impl<'a> Tr<'a> {
                 Ok(format!("(T{}.mk {})", parts.len(), parts.join(" ")))
             }
             Expr::Field(f) => {
-                if let (Expr::Path(bp), Member::Named(n)) = (&*f.base, &f.member) {
-                    if bp.path.is_ident("self") && self.cfg.self_fields.contains(&n.to_string()) {
-                        return Ok(format!("self_{}", n));
+                if let Some(path) = self_field_path(e) {
+                    if self.cfg.self_fields.contains(&path) {
+                        return Ok(self_field_var(&path));
                     }
                 }
                 let base = self.expr(&f.base)?;
@@ -828,11 +842,9 @@ impl<'a> Tr<'a> {
     }
 
     fn assign_name(&self, left: &Expr) -> R<String> {
-        if let Expr::Field(f) = left {
-            if let (Expr::Path(bp), Member::Named(n)) = (&*f.base, &f.member) {
-                if bp.path.is_ident("self") && self.cfg.self_fields.contains(&n.to_string()) {
-                    return Ok(format!("self_{}", n));
-                }
+        if let Some(path) = self_field_path(left) {
+            if self.cfg.self_fields.contains(&path) {
+                return Ok(self_field_var(&path));
             }
         }
         if let Expr::Path(p) = left {
@@ -1047,7 +1059,7 @@ impl<'a> Tr<'a> {
         if self.cfg.self_fields.is_empty() {
             v
         } else {
-            let fields: Vec<String> = self.cfg.self_fields.iter().map(|f| format!("self_{}", f)).collect();
+            let fields: Vec<String> = self.cfg.self_fields.iter().map(|f| self_field_var(f)).collect();
             format!("(T2.mk {} {})", v, self.tuple_of(&fields))
         }
     }
@@ -1619,6 +1631,7 @@ fn main() {
             cfg.take_stmts = t.get("take_stmts").and_then(|x| x.as_u64()).map(|x| x as usize);
             cfg.skip_stmts = t.get("skip_stmts").and_then(|x| x.as_u64()).map(|x| x as usize).unwrap_or(0);
             cfg.tail = get_str(t, "tail");
+            cfg.inner_block = t.get("inner_block").and_then(|x| x.as_array()).map(|a| a.iter().filter_map(|st| { let st = st.as_array()?; Some((st.get(0)?.as_u64()? as usize, st.get(1)?.as_str()?.to_string())) }).collect()).unwrap_or_default();
             cfg.self_fields = t.get("self_fields").and_then(|x| x.as_array()).map(|a| a.iter().filter_map(|x| x.as_str().map(|s| s.to_string())).collect()).unwrap_or_default();
             cfg.loop_fuel = match t.get("loop_fuel") {
                 Some(Value::String(e)) => e.clone(),
@@ -1742,6 +1755,17 @@ fn main() {
                         writeln!(body, "{}", p).unwrap();
                     }
                     let mut body_stmts: Vec<Stmt> = body_stmts.into_iter().filter(|s| !stmt_is_verif_hook(s)).collect();
+                    for (idx, branch) in &cfg.inner_block {
+                        // descend into the body of a nested `if` / `if let`: what the conditions bind is a parameter of the target
+                        let st = body_stmts.get(*idx).cloned().ok_or_else(|| format!("inner_block: no statement {}", idx))?;
+                        let ife = match &st { Stmt::Expr(Expr::If(i), _) => i.clone(), other => return Err(format!("inner_block: statement {} is not an `if`: `{}`", idx, tok(other))) };
+                        let inner: Vec<Stmt> = match branch.as_str() {
+                            "then" => ife.then_branch.stmts.clone(),
+                            "else" => match ife.else_branch.as_ref().map(|(_, e)| &**e) { Some(Expr::Block(b)) => b.block.stmts.clone(), _ => return Err("inner_block: no else block".to_string()) },
+                            other => return Err(format!("inner_block: unknown branch `{}`", other)),
+                        };
+                        body_stmts = inner.into_iter().filter(|s| !stmt_is_verif_hook(s)).collect();
+                    }
                     if cfg.skip_stmts > 0 {
                         // the first n statements are not translated: what they compute is a parameter of the target (see `params`, `subst`)
                         if cfg.skip_stmts > body_stmts.len() {
